@@ -296,6 +296,23 @@ def state_checks(out, layout):
                         if records(S, intern) != records(D, intern):
                             ev["presence-leftright_" + tag] = bool(cdiff(S, D)) and not (S == D)
                             ev["presence-rightleft_" + tag] = bool(cdiff(D, S)) and not (D == S)
+                    # a later snapshot of an archive in which a block of the first snapshot no longer exists (integrator arrays released):
+                    # the restored simulation equals the one that was saved -- the vanished block is gone, not inherited from snapshot 0
+                    T = reproduce(S, "copy", layout, tmp)
+                    clibrebound.reb_simulation_reset_integrator(ctypes.byref(T))
+                    if records(S, intern) != records(T, intern):
+                        fn2 = os.path.join(tmp, "a2_%d.bin" % os.getpid())
+                        if os.path.exists(fn2):
+                            os.remove(fn2)
+                        S.save_to_file(fn2)
+                        T.save_to_file(fn2)
+                        sa = rebound.Simulationarchive(fn2)
+                        U = sa[1]
+                        del sa
+                        os.remove(fn2)
+                        reattach(T, U, layout)
+                        ev["eq_archive-after-release"] = not bool(cdiff(T, U))
+                        ev["same_archive-after-release"] = sdig(U, intern) == sdig(T, intern)
                     for route in ("copy", "pickle", "file", "archive"):
                         Cc = reproduce(S, route, layout, tmp)
                         ev["eq_" + route] = not bool(cdiff(S, Cc))
